@@ -165,6 +165,24 @@ def column_exponents(M, ratio_atom):
     return out
 
 
+def finite_values_oracle(interp, node, fr, value):
+    """End-to-end runs use a symbolic f whose values are generic finite numbers: a test for NaN among them is false.
+    (Rules about the *set* of evaluation points explore such tests on both sides instead: C05.)"""
+    from .ndarr import Unk
+
+    def only_isnan(e):
+        if isinstance(e, Unk):
+            return only_isnan(e.expr)
+        if isinstance(e, str):
+            return e == 'isnan(f)'
+        if isinstance(e, tuple) and e and e[0] in ('all', 'any'):
+            return bool(e[1]) and all(only_isnan(x) for x in e[1])
+        return False
+    if only_isnan(value):
+        return False
+    return None
+
+
 class Pipeline(object):
     """One interpreter + models configured for end-to-end runs."""
 
@@ -172,6 +190,8 @@ class Pipeline(object):
         self.repo = repo
         self.reg = PinvRegistry()
         self.models = Models(hooks={'linalg.pinv': self.reg.hook})
+        if branch_oracle is None:
+            branch_oracle = finite_values_oracle
         self.interp = Interp(repo, self.models, branch_oracle=branch_oracle)
         self.models.bind(self.interp)
         self.calls = []
